@@ -1,24 +1,60 @@
 #!/usr/bin/env python3
-"""Prints the markdown tables of DESIGN.md section 7 from evidence/*.json, known_findings.json and seeded/*/meta.json."""
-import json, glob, os
+"""Markdown tables of DESIGN.md section 7 from evidence/*.json, MANIFEST.json and seeded/*/meta.json.
+   tools/design_tables.py            prints them
+   tools/design_tables.py --update   re-writes the two generated tables of DESIGN.md in place"""
+import json, glob, sys
 R = "/verif"
-print("| check | engine | cells | states | transitions | traces replayed | distinct outcomes | refused | known | wall (quick) |")
-print("|---|---|---|---|---|---|---|---|---|---|")
-man = {c["property_id"]: c for c in json.load(open(R + "/MANIFEST.json"))["checks"]}
-for p in sorted(man):
-    e = json.load(open(R + "/evidence/%s.json" % p)); c = e["coverage"]
-    print("| %s | %s | %d | %d | %d | %d | %d | %d | %d | %.0f s |" % (p, man[p]["engine"], c["cells_total"], c["states"], c["transitions"],
-          c["traces_validated_against_impl"], c["distinct_observed_outcomes"], c["refused_by_implementation"], len(c["known_findings_observed"]), e["wall_s"]))
-print()
-print("| seed | needs to manifest | first detected by (quick tier) | signatures |")
-print("|---|---|---|---|")
-for d in sorted(glob.glob(R + "/seeded/*")):
-    m = json.load(open(d + "/meta.json"))
-    det = m.get("detection", {}).get("quick", {})
-    sigs = []
-    for p, v in det.items():
-        if v["exit"] == 1:
-            sigs += v["violation_signatures"]
-    short = sorted(set("|".join(s.split("|")[1:3]) for s in sigs))
-    print("| %s | %s | %s | %s |" % (m["id"], m.get("needs_to_manifest", "")[:160], ", ".join(p for p, v in det.items() if v["exit"] == 1) or "MISSED",
-                                    "; ".join(short)[:160]))
+
+
+def coverage_table():
+    out = ["| check | engine | cells | states | transitions | traces replayed | distinct outcomes | refused | known | wall (quick) |",
+           "|---|---|---|---|---|---|---|---|---|---|"]
+    man = {c["property_id"]: c for c in json.load(open(R + "/MANIFEST.json"))["checks"]}
+    for p in sorted(man):
+        e = json.load(open(R + "/evidence/%s.json" % p))
+        c = e["coverage"]
+        out.append("| %s | %s | %d | %d | %d | %d | %d | %d | %d | %.0f s |" % (
+            p, man[p]["engine"], c["cells_total"], c["states"], c["transitions"], c["traces_validated_against_impl"],
+            c["distinct_observed_outcomes"], c["refused_by_implementation"], len(c["known_findings_observed"]), e["wall_s"]))
+    return "\n".join(out)
+
+
+def seeds_table():
+    out = ["| seed | needs to manifest | first detected by (quick tier) | signatures |", "|---|---|---|---|"]
+    for d in sorted(glob.glob(R + "/seeded/C*"), key=lambda x: (x.split("/")[-1].split("-")[0], int(x.split("-")[-1]))):
+        m = json.load(open(d + "/meta.json"))
+        det = m.get("detection", {}).get("quick", {})
+        sigs = []
+        for p, v in det.items():
+            if v["exit"] == 1:
+                sigs += v["violation_signatures"]
+        short = sorted(set("|".join(s.split("|")[1:3]) for s in sigs))
+        needs = " ".join(m.get("needs_to_manifest", "").replace("|", "/").split())
+        out.append("| %s | %s | %s | %s |" % (m["id"], needs[:200], ", ".join(p for p, v in det.items() if v["exit"] == 1) or "MISSED",
+                                              "; ".join(short)[:200].replace("|", " / ")))
+    return "\n".join(out)
+
+
+def update_design(path=R + "/DESIGN.md"):
+    s = open(path).read()
+
+    def repl(text, header_start, new):
+        i = text.index(header_start)
+        lines = text[i:].split("\n")
+        n = 0
+        while n < len(lines) and lines[n].startswith("|"):
+            n += 1
+        old = "\n".join(lines[:n])
+        return text[:i] + new + text[i + len(old):]
+    s = repl(s, "| check | engine | cells |", coverage_table())
+    s = repl(s, "| seed | needs to manifest |", seeds_table())
+    open(path, "w").write(s)
+
+
+if __name__ == "__main__":
+    if "--update" in sys.argv:
+        update_design()
+    else:
+        print(coverage_table())
+        print()
+        print(seeds_table())
